@@ -656,6 +656,12 @@ def run_property(prop, tier, seed, make_obs, level_note, assumptions, stubs=None
                     cond.wait()
                 used[0] += need
             try:
+                if budget and time.time() - ctx.t0 > budget:
+                    # the wait for memory ran past the budget
+                    r = Result()
+                    r.status = 'skipped'
+                    r.detail = 'not started inside the budget of %ds' % budget
+                    return r
                 return ctx.run_ob(ob)
             finally:
                 with cond:
